@@ -211,4 +211,37 @@ theorem isHealthyAt_mirror (y : Sys) (i now : Nat) (h : MirrorOK y) (hn : NodupN
           simpa [bmUpd, hne] using this
       · exact h
 
+/-- **A late probe answer never cuts a window short.** Whatever happened while an active probe
+was in flight (the state `y` is arbitrary): when its 200 arrives, every backend that is inside
+an unhealthy window with a set end stays inside it. -/
+theorem probeEnd_ok_keeps_window (y : Sys) (name : String) (now : Nat) (j : Nat) (o : Obj)
+    (ho : y.pool[j]? = some o) (hu : o.b.until_ ≠ none) (hw : o.b.inWindow now = true) :
+    ∃ o', (probeEnd y name now true).1.pool[j]? = some o' ∧ o'.b.inWindow now = true := by
+  simp only [probeEnd]
+  cases hi : y.pool.findIdx? (·.b.name = name) with
+  | none => exact ⟨o, ho, hw⟩
+  | some i =>
+    simp only [Bool.not_true, Bool.false_eq_true, if_false]
+    cases hoi : y.pool[i]? with
+    | none => exact ⟨o, ho, hw⟩
+    | some oi =>
+      simp only []
+      by_cases hg : stillEjected oi.b now = true
+      · rw [if_pos hg]; exact ⟨o, ho, hw⟩
+      · rw [if_neg hg]
+        by_cases hji : j = i
+        · -- the probed backend itself: it is in its window, so the guard held — contradiction
+          subst hji
+          rw [ho] at hoi; cases hoi
+          exfalso
+          apply hg
+          simp only [Backend.inWindow, Bool.and_eq_true, Bool.not_eq_true'] at hw
+          cases hun : o.b.until_ with
+          | none => exact absurd hun hu
+          | some u => rw [hun] at hw; simp [stillEjected, hun, hw.1, hw.2]
+        · refine ⟨o, ?_, hw⟩
+          show (y.pool.set i _)[j]? = some o
+          rw [List.getElem?_set_ne (fun e => hji e.symm)]
+          exact ho
+
 end Helios.LB
